@@ -4,7 +4,11 @@ import (
 	"bytes"
 	stdxml "encoding/xml"
 	"fmt"
+	"go/ast"
+	"go/parser"
+	"go/token"
 	"io"
+	"strconv"
 	"strings"
 	"unsafe"
 
@@ -654,7 +658,36 @@ func mutateXML(r *Rng, src []byte) []byte {
 	return b
 }
 
+// repoTestStrings returns the string literals of the package's own test file (the ~70 spellings the
+// suite pins); they seed the correspondence together with all their truncations.
+func repoTestStrings(path string) []string {
+	fset := token.NewFileSet()
+	f, err := parser.ParseFile(fset, path, nil, 0)
+	if err != nil {
+		return nil
+	}
+	seen := map[string]bool{}
+	var out []string
+	ast.Inspect(f, func(n ast.Node) bool {
+		if bl, ok := n.(*ast.BasicLit); ok && bl.Kind == token.STRING {
+			if s, err := strconv.Unquote(bl.Value); err == nil && len(s) > 0 && len(s) < 400 && !seen[s] {
+				seen[s] = true
+				out = append(out, s)
+			}
+		}
+		return true
+	})
+	return out
+}
+
 func xmlGen(r *Rng, tier string, emit func(Case)) {
+	// (0) the spellings of xml/lex_test.go and every truncation of them
+	for _, s := range repoTestStrings("/repo/xml/lex_test.go") {
+		emit(xmlCase([]byte(s), 2, "suite"))
+		for j := 1; j < len(s) && j < 120; j++ {
+			emit(xmlCase([]byte(s[:j]), 1, "suite-trunc"))
+		}
+	}
 	// (a) exhaustive small scope over the byte classes
 	k := 4
 	if tier == "thorough" {
@@ -754,7 +787,7 @@ func xmlShrink(c Case) []Case {
 
 func xmlClass(c Case, out []int64) string {
 	src := "other"
-	for _, p := range []string{"exh-sub", "exh", "frag", "doc", "trunc", "mut", "rand", "shrunk", "corpus"} {
+	for _, p := range []string{"exh-sub", "exh", "frag", "doc", "trunc", "mut", "rand", "shrunk", "corpus", "suite-trunc", "suite"} {
 		if strings.HasPrefix(c.Note, p) {
 			src = p
 			break
